@@ -130,7 +130,7 @@ def replay_take(scn, variants, signature, extra_variants=()):
                 calls += 1
                 try:
                     if sp in OPTION_SPELLINGS:
-                        res = fn(a, tup)
+                        res = fn(a, tup, tol)
                     else:
                         res = do_read(a, sp, tup, a_abs["dims"], i["idxs"], tol, A.da)
                     err = None
